@@ -68,6 +68,55 @@ def digest_result(res, ins, values=None):
     return A._h(A.deep_repr(res).encode())
 
 
+def caller_writes(res):
+    """the caller edits the result in place (fills arrays with a sentinel, adds an attrs key): a result must not alias
+    hidden library state, so a later identical call must still return the fresh-interpreter result.  -> number of objects
+    written"""
+    import pandas as pd
+    n = 0
+    if isinstance(res, xr.DataArray):
+        try:
+            res.attrs["__caller_wrote__"] = 1
+            n += 1
+        except Exception:
+            pass
+        d = res.data
+        if isinstance(d, np.ndarray):
+            n += caller_writes(d)
+        return n
+    if isinstance(res, xr.Dataset):
+        return sum(caller_writes(res[k]) for k in res.data_vars)
+    if isinstance(res, np.ndarray):
+        if res.flags.writeable and res.size and res.dtype.kind in "iufb":
+            res[...] = (res.dtype.type(1) if res.dtype.kind == "b" else res.dtype.type(-7) if res.dtype.kind in "if"
+                        else res.dtype.type(7))
+            return 1
+        return 0
+    if isinstance(res, pd.DataFrame):
+        try:
+            for col in res.columns:
+                if res[col].dtype.kind in "iuf":
+                    res[col].values[...] = -7
+            res.iloc[:, :] = -7
+            return 1
+        except Exception:
+            return 0
+    if isinstance(res, list):
+        n = sum(caller_writes(r) for r in res)
+        try:
+            res.append("__caller_wrote__")
+            n += 1
+        except Exception:
+            pass
+        return n
+    if isinstance(res, tuple):
+        return sum(caller_writes(r) for r in res)
+    if isinstance(res, dict):
+        res["__caller_wrote__"] = 1
+        return 1
+    return 0
+
+
 # ----------------------------------------------------------------------------- hidden state
 
 def public_functions():
@@ -179,6 +228,8 @@ def run_history(h):
                         out["events"].append(e2)
                     ev["digest"] = digest_result(res, ins, values=vals[-1])
                     ev["joint"] = True
+                # CallerWritesResult: after the result was digested the caller overwrites it in place
+                ev["caller_wrote"] = caller_writes(res) if c.get("caller_writes", True) else 0
         except Exception as ex:
             ev["raised"] = True
             ev["err"] = "%s: %s" % (type(ex).__name__, str(ex)[:300])
